@@ -441,11 +441,29 @@ theorem int_out_of_range_rejected (info : ElemInfo) (m : Nat) (z : Int) (hc : co
   simp [this]
 
 /-- non-vacuity: the table's `uint` row, with a width the parser admits, satisfies `ElemOK` -/
-example : ∀ info ∈ Gen.AbiTypeTable.table, info.name = "uint" → ElemOK info "256" 256 := by
+theorem uint256_ok : ∀ info ∈ Gen.AbiTypeTable.table, info.name = "uint" → ElemOK info "256" 256 := by
   intro info hmem hn
   refine Or.inr (Or.inl ⟨hn, ?_, by decide, by decide, by decide⟩)
   have hall : Gen.AbiTypeTable.table.all (fun i => i.name != "uint" || decide (codecOf i.enc = .uint)) = true := by decide
   have := List.all_eq_true.mp hall info hmem
   simpa [hn] using this
+
+/-! ### non-vacuity of the hypotheses -/
+
+
+
+/-- non-vacuity of `encodeData_eq_spec`: `(uint256 a, uint256[] b)` with the value `(5, [1, 2])` meets every hypothesis -/
+example : ∀ info ∈ Gen.AbiTypeTable.table, info.name = "uint" →
+    ValidTy (.tuple ["a", "b"] [.elem info "256" 256 0, .darr (.elem info "256" 256 0)]) ∧
+    Spec.Abi.WellTyped (.tuple ["a", "b"] [.elem info "256" 256 0, .darr (.elem info "256" 256 0)])
+      (.kids [.int 5, .kids [.int 1, .int 2]]) = true ∧
+    Small (.tuple ["a", "b"] [.elem info "256" 256 0, .darr (.elem info "256" 256 0)]) (.kids [.int 5, .kids [.int 1, .int 2]]) := by
+  intro info hmem hn
+  have hok : ElemOK info "256" 256 := uint256_ok info hmem hn
+  have hbig : (200 : Nat) < 256 ^ 32 := by decide
+  refine ⟨⟨hok, hok, trivial⟩, ?_, ?_⟩
+  · simp [Spec.Abi.WellTyped, Spec.Abi.wellTypedEach, Spec.Abi.wellTypedSame, hn]
+  · simp [Small, SmallEach, SmallSame, LayoutSmall, Spec.Abi.encEach, Spec.Abi.encSame, Spec.Abi.enc, Spec.Abi.isDynamic,
+      Spec.Abi.headsLen, tailLen, Spec.Abi.encElem, Spec.Abi.encUint, Spec.Abi.assemble, Spec.Abi.assembleGo, hn]
 
 end FFS.Props.C02
